@@ -80,6 +80,14 @@ CHECKS["C03"] = ("E2-sim",
   "B = L*(Ti+Tn+2Ta)+NAK delay+exchange+5 s, no PDU flood, and afterwards each daemon must complete a fresh Put on the healed link.",
   "Liveness is decided as bounded-time safety with a generous bound under virtual time; handlers ignore/suspend excluded as the statement says.",
   "DESIGN.md §5 C03")
+CHECKS["C18"] = ("E2-sim",
+  "exhaustive single and double loss over the unacknowledged exchange of the real daemons + proptest scenarios; trace oracle on PDU kinds, tiling, end points, closure relay and delivery code against an exact delivered-bytes model",
+  "Unacknowledged mode, closure off/on x checksum type x 6 (size, content) pairs: every single loss and every pair of losses over all datagram ordinals of both directions (exhaustive), plus "
+  "sampled scenarios with duplicates, delays and corruption. Checked: the receiver emits nothing (only Finished with closure); the sender emits Metadata, the file tiled once in order, EOF; "
+  "without closure both end on EOF; with closure the Finished PDU carries the receiver's outcome, the sender ends only when it arrives (or within its limits) and relays condition, delivery code and "
+  "file status; a receiver missing metadata or any byte never reports Complete.",
+  "With closure the sender may repeat its EOF while waiting. Exhaustive for <= 2 losses on the listed configurations only.",
+  "DESIGN.md §5 C18")
 NOT_YET = {}
 
 def main():
